@@ -28,6 +28,13 @@ def zoo():
         ("Literal", lambda: L("ab")), ("CaselessLiteral", lambda: pp.CaselessLiteral("ab")), ("Keyword", lambda: pp.Keyword("ab")),
         ("CaselessKeyword", lambda: pp.CaselessKeyword("ab")), ("Word", lambda: W("ab")), ("Word.max", lambda: W("ab", max=2)),
         ("Word.exact", lambda: W("ab", exact=2)), ("Word.askw", lambda: W("ab", as_keyword=True)), ("Char", lambda: pp.Char("ab")),
+        # character sets containing a space cannot become a regular expression: the character-loop path of Word.parseImpl
+        ("Word.loop", lambda: W("ab ")), ("Word.loop.askw", lambda: W("ab ", as_keyword=True)), ("Word.loop.max", lambda: W("ab ", max=2)),
+        ("Word.loop.exact", lambda: W("ab ", exact=2)), ("Word.loop.min", lambda: W("ab ", min=2)), ("Word.loop.body", lambda: W("a", "b ", as_keyword=True)),
+        ("Word.loop.group", lambda: pp.Group(W("ab ", as_keyword=True))[1, ...]), ("Word.excl", lambda: W("abc", exclude_chars="c")),
+        ("Word.min", lambda: W("ab", min=2)), ("Word.body", lambda: W("a", "b")), ("Word.body.askw", lambda: W("a", "b", as_keyword=True, max=3)),
+        ("Char.askw", lambda: pp.Char("ab", as_keyword=True)), ("Char.loop", lambda: pp.Char("a ")), ("CharsNotIn.max", lambda: pp.CharsNotIn(",", max=2)),
+        ("CharsNotIn.exact", lambda: pp.CharsNotIn(",", exact=2)), ("White.max", lambda: pp.White(" ", max=2)), ("White.exact", lambda: pp.White(" \t", exact=2)),
         ("CharsNotIn", lambda: pp.CharsNotIn(",")), ("White", lambda: pp.White()), ("Regex", lambda: pp.Regex(r"a+b?")),
         ("Regex.empty", lambda: pp.Regex(r"a*")), ("QuotedString", lambda: pp.QuotedString('"')), ("QuotedString.esc", lambda: pp.QuotedString("'", esc_char="\\")),
         ("CloseMatch", lambda: pp.CloseMatch("abab")), ("Empty", lambda: pp.Empty()), ("NoMatch", lambda: pp.NoMatch()),
